@@ -65,4 +65,43 @@ PROPS = {
         "assumptions": ["B3: change_identity(new) keeps the address (documented use); renew() keeps the address",
                         "relays to a target named by a peer and the destination passed to announce() are outside the guarantee (as the property states)"],
     },
+    "C09": {
+        "level_text": "Coq theorems: every reachable state (any history of legal inputs, any oracle) has one record per address, an exact active count and only Down records bearing the instance's own address (from the master invariant); the identity stored for an address changes only to a same-address identity that wins the conflict, hence never falls back along any update sequence; data claiming the own identity/address is rejected with no change; a datagram whose sender is not active after its header was processed has its whole payload discarded (handle_data reduces to the optional TurnUndead reply). Refinement scope members/notes/result; falsifier monitors the same clauses (plus Rename and the size bound) on the real crate.",
+        "technique": "Coq proof (inductive invariant, join lemmas, equational reduction of handle_data) + per-step refinement check",
+        "scope": {"inputs": ["data", "apply_many", "timer", "change_identity"], "components": ["members", "notes", "result", "order", "handler", "custom_backlog"]},
+        "refine": refine(),
+        "falsify": {"quick": 600, "thorough": 60000},
+        "trusted_base": TB_COMMON + ["ExtraLaws - proved for the executable codec/identity"],
+        "partial": "the bound 'never more records than distinct addresses told about' and 'Rename is notified for every replacement' are checked by the falsifier and the refinement check (notes component), not stated as theorems yet",
+        "assumptions": ["B2 (strict total order per address), B3 (change_identity keeps the address)"],
+    },
+    "C11": {
+        "level_text": "Coq theorems on the model's handle_timer(ChangeSuspectToDown): stale epoch => no effect at all; cancelled (address forgotten / superseded by a winning identity / incarnation changed / already Down) => no state change, no datagram, no notification (after fix 07f6a2c); unrefuted => exactly: record Down at that incarnation, MemberDown, Down update in the backlog with max_transmissions, RemoveDown after remove_down_after, TurnUndead iff notify_down_members; and a Down record is final under any update sequence except for a newer identity that wins. Refinement scope on the timer inputs; exhaustive case-table falsifier on the real crate.",
+        "technique": "Coq proof (equational evaluation of the timer handler, lattice lemmas) + per-step refinement check + exhaustive case table on the implementation",
+        "scope": {"inputs": ["timer.suspect_to_down", "timer.remove_down", "data", "apply_many"], "components": ["members", "notes", "timers", "sends", "updates_backlog", "conn", "token", "result"]},
+        "refine": refine(),
+        "falsify": {"quick": 300, "thorough": 30000},
+        "trusted_base": TB_COMMON,
+        "partial": "the effective case is stated for the situation with other active members remaining (no Idle transition) and under header_fits; forgetting (RemoveDown removes exactly that Down identity) is covered by the invariant proof and the falsifier",
+        "assumptions": ["genuine timers: the timer's identity does not win against the stored one (records only move forward)", "conn_consistent: connection state agrees with the member count (holds at every call boundary; checked by the harness)"],
+    },
+    "C13": {
+        "level_text": "Coq theorems: any token-carrying timer with a non-current token has no effect at all (state, effects, oracle untouched); connecting arms exactly one probe timer and one timer per enabled periodic task with the current token; set_config emits nothing, cannot change probe timing nor enable a task; timers of disabled tasks and periodic timers while not connected are dropped without effect. The history-level accounting (exactly one outstanding timer per loop while active, none effective otherwise, ordered delivery never errors, any order at most IncompleteProbeCycle) is decided by an exactly-once-runtime falsifier on the real crate and by the refinement check on timers/conn/token.",
+        "technique": "Coq proof (equational lemmas on the timer handlers) + per-step refinement check + pending-set accounting on the implementation",
+        "scope": {"inputs": "*", "components": ["timers", "conn", "token", "result"]},
+        "refine": refine(),
+        "falsify": {"quick": 600, "thorough": 60000},
+        "trusted_base": TB_COMMON,
+        "partial": "the pending-set invariant over whole histories is not (yet) a theorem: it is checked by simulation with an exactly-once runtime",
+        "assumptions": ["fewer than 256 epoch changes between issue and delivery of a timer (token width), as the property states"],
+    },
+    "C17": {
+        "level_text": "Coq theorems: for every class of rejected input (12 classes) step returns the unchanged state, no effect, the documented result and does not consult the oracle; inserting any list of rejected inputs at any point of any history leaves every observation of the rest of the history and the final state identical (induction over histories). Determinism of the code as a function of (history, seed) is what the refinement check establishes step by step; twin-run falsifier on the real crate.",
+        "technique": "Coq proof (case analysis + induction over histories) + per-step refinement check + twin runs on the implementation",
+        "scope": {"inputs": "*", "components": "*"},
+        "refine": refine(),
+        "falsify": {"quick": 300, "thorough": 30000},
+        "trusted_base": TB_COMMON,
+        "assumptions": ["the codec's decoders are functions of the bytes (model: dec_hdr/dec_mem)"],
+    },
 }
